@@ -263,8 +263,12 @@ def expected_outcomes(files, skip_marked=("xfail", "skip")):
         modname = name[:-3].replace("/", ".")
         tree = ast.parse(src)
         marked = set()
+        module_marked = any(isinstance(node, ast.Assign) and ast.unparse(node.targets[0]) == "pytestmark"
+                            and any(m in ast.unparse(node.value) for m in skip_marked) for node in tree.body)
         for node in tree.body:
             if isinstance(node, ast.FunctionDef):
+                if module_marked:
+                    marked.add(node.name)
                 for d in node.decorator_list:
                     if any(m in ast.unparse(d) for m in skip_marked):
                         marked.add(node.name)
